@@ -96,6 +96,26 @@ func cmdSelftest(args []string) int {
 		}
 	}
 
+	// 2b. scheduler model twins (channel/select model)
+	for _, fn := range []string{"H_select_rendezvous"} {
+		exp, err := l.Run(engine.RunSpec{Fn: fn, Workers: 16, Fuel: 20_000_000, Sched: true, Preempt: 3}, "z3-new", 60000)
+		if err != nil {
+			fmt.Println("selftest", fn, "engine error:", err)
+			fail++
+			continue
+		}
+		st := exp.Stats
+		ok := len(exp.Violations) == 0 && st.Inconclusive == 0 && st.Unsupported == 0 && st.FuelOut == 0 && st.AssertsTotal > 0 && exp.Truncated == "" && st.Reached["end"] > 0
+		fmt.Printf("selftest scheduler %s: paths=%d obligations=%d discharged=%d violations=%d inconclusive=%d\n", fn, st.Paths, st.AssertsTotal, st.Discharged, len(exp.Violations), st.Inconclusive+st.Unsupported)
+		if !ok {
+			fail++
+			for _, v := range exp.Violations {
+				fmt.Printf("  SCHEDULER MODEL MISMATCH %s %s\n", v.Label, v.Msg)
+				break
+			}
+		}
+	}
+
 	// 3. solver agreement
 	type job struct {
 		pkg, fn, setup string
